@@ -34,7 +34,9 @@ var (
 )
 
 func CloseProxy(address string) error {
+	// never return with the lock held: Shutdown needs it
 	mu.Lock()
+	defer mu.Unlock()
 	if srv, ok := servers[address]; ok {
 		err := srv.Close()
 		if err != nil {
@@ -43,7 +45,6 @@ func CloseProxy(address string) error {
 		log.Printf("[INFO] Dynamic TCP listener on %s has been terminated", address)
 		delete(servers, address)
 	}
-	mu.Unlock()
 	return nil
 }
 
